@@ -141,7 +141,15 @@ def _r1(ctx, repo):
         else:
             ctx.ob("C09-R1", init.fq, "positional arguments are collected in canonical x,y,z order (iteration over reserved_fn_args)", verdict, node=asg[0],
                    construct="argument order is x,y,z", msg="arguments are collected in the callable's declared parameter order: fn(y, x) receives the first Klong argument as y")
-    gp = repo.fn("types:KGLambda._get_pos_args")
+    gp = repo.fn_opt("types:KGLambda._get_pos_args")
+    if gp is None:
+        # found by role: the KGLambda method that reads the call frame by the symbols in self.args (the collection may have been
+        # split into one method per mode)
+        cands = [g for g in repo.module("types").funcs.values() if g.cls == "KGLambda" and g.parent is None and len(g.params()) == 2 and
+                 any(isinstance(n, (ast.ListComp, ast.For)) and dotted(n.generators[0].iter if isinstance(n, ast.ListComp) else n.iter) == "self.args" for n in walk_local(g.node))]
+        if len(cands) != 1:
+            raise AnalysisError("anchor function vanished: types:KGLambda._get_pos_args (and no single method collecting by self.args found)")
+        gp = cands[0]
     ctx.instance("C09-R1", gp.fq)
     # the function serves two modes; the rule is about the non-wildcard one: partially evaluate on self._wildcard == False
     from ..specialize import specialise
